@@ -39,6 +39,15 @@ KINDS = ("SPECIATION", "DUPLICATION", "HORIZONTAL_TRANSFER")
 ROLE = {0: "a", 1: "b"}
 
 
+def third_arg(call: ast.Call) -> Optional[ast.AST]:
+    """Third argument of a call, however the keyword is spelled (two positionals + one keyword, or three positionals)."""
+    if len(call.args) >= 3:
+        return call.args[2]
+    if len(call.args) == 2 and len(call.keywords) == 1 and call.keywords[0].arg is not None:
+        return call.keywords[0].value
+    return None
+
+
 def cost_key(node: ast.AST) -> Optional[str]:
     """`<anything>[NodeEvent.K]` -> K."""
     if isinstance(node, ast.Subscript):
@@ -152,7 +161,7 @@ class _EvalHook:
                     return f"D.{ch0}"  # distance is symmetric
             if dotted(f) == "subseq_segment_dist" and len(node.args) + len(node.keywords) == 3:
                 ch = self._mask_child(node.args[0])
-                edges = kwarg(node, "edges", 2)
+                edges = third_arg(node)
                 flag = const_bool(edges) if edges is not None else None
                 if ch and flag is not None:
                     return f"L{'T' if flag else 'F'}.{ch}"
@@ -539,11 +548,43 @@ def _find_recurrences(prog: Program) -> List[Recurrence]:
 
 
 def _root_names(fn: ast.AST) -> Tuple[str, str]:
+    """(species parameter, object parameter) of a recurrence function, by role: the object node is the
+    parameter whose `.children` index the table rows (`table[<p>.children[k]]...` or names unpacked from
+    `<p>.children` used that way); the species is the parameter handed to `distance(<q>, ...)` /
+    `is_ancestor_of(<q>, ...)` or whose `.children` give the species subtrees."""
     params = func_params(fn)
-    species = next((p for p in params if p in ("root_species",)), None)
-    obj = next((p for p in params if p in ("root_object", "root_node")), None)
+    obj_votes: Dict[str, int] = {}
+    sp_votes: Dict[str, int] = {}
+    # names unpacked from <param>.children
+    unpacked: Dict[str, str] = {}
+    for node in ast.walk(fn):
+        val = node.value if isinstance(node, ast.Assign) else None
+        if isinstance(val, ast.Subscript):
+            val = val.value  # <p>.children[k]
+        if isinstance(node, ast.Assign) and isinstance(val, ast.Attribute) and val.attr == "children" and dotted(val.value) in params:
+            for tgt in node.targets:
+                for nm in ast.walk(tgt):
+                    if isinstance(nm, ast.Name) and isinstance(nm.ctx, ast.Store):
+                        unpacked[nm.id] = dotted(val.value)
+    for node in ast.walk(fn):
+        if isinstance(node, ast.Subscript) and isinstance(node.value, ast.Name) and node.value.id in params:
+            key = node.slice
+            if isinstance(key, ast.Subscript) and isinstance(key.value, ast.Attribute) and key.value.attr == "children" and dotted(key.value.value) in params:
+                obj_votes[dotted(key.value.value)] = obj_votes.get(dotted(key.value.value), 0) + 1
+            elif isinstance(key, ast.Name) and key.id in unpacked:
+                obj_votes[unpacked[key.id]] = obj_votes.get(unpacked[key.id], 0) + 1
+        if isinstance(node, ast.Call) and isinstance(node.func, ast.Attribute) and node.func.attr in ("distance", "is_ancestor_of") and node.args:
+            for a in node.args[:2]:
+                nm = dotted(a)
+                if nm in params:
+                    sp_votes[nm] = sp_votes.get(nm, 0) + 1
+    obj = max(obj_votes, key=obj_votes.get) if obj_votes else None
+    species = max((k for k in sp_votes if k != obj), key=lambda k: sp_votes[k], default=None)
     if species is None or obj is None:
-        # fall back on annotations: two TreeNode params, the one whose .children feeds table rows is the object
+        # spelling of the pinned tree as a last resort
+        species = next((p for p in params if p in ("root_species",)), None)
+        obj = next((p for p in params if p in ("root_object", "root_node")), None)
+    if species is None or obj is None:
         raise AnalysisError(f"{fn.name}: root species / root object parameters not recognised")
     return species, obj
 
@@ -728,7 +769,7 @@ class OptHook:
                 self.bad_d.append(f"distance({a}, {b})")
                 return f"D?({a},{b})"
             if dotted(f) == "subseq_segment_dist" and len(node.args) + len(node.keywords) == 3:
-                edges = kwarg(node, "edges", 2)
+                edges = third_arg(node)
                 flag = const_bool(edges) if edges is not None else None
                 a = self.norm.text(node.args[0], False) if node.args else "?"
                 b = self.norm.text(node.args[1], False) if len(node.args) > 1 else "?"
